@@ -1504,6 +1504,7 @@ void model_selftest_or_die()
 RunResult run_world(const Script& script)
 {
     process_init();
+    if (script.cfg.prop == "C14") pristine_server_start_once();  // before this process evaluates anything
     TSAN_IGNORE_SCOPE();
     World world;
     W = &world;
